@@ -268,6 +268,8 @@ var c14Failures = []struct{ kind, text string }{
 	{"schema-block", "schema { query: NopeTypeZz }"},
 	{"schema-block", "schema { query: Query }\ntype BadRef { a: NopeTypeZz }"},
 	{"schema-block", "extend schema { mutation: NopeTypeZz }"},
+	{"schema-block-then-syntax", "schema { query: Query }\ntype Broken {"},
+	{"schema-block-then-syntax", "type QZz { a: Int }\nschema { query: QZz }\nenum { A }"},
 }
 
 // c14DynamicFailures builds failing documents that depend on the base schema: extensions that fail part-way (a valid
